@@ -189,6 +189,10 @@ def gen_compare(ctx, r, auto=False):
                                                  " ".join(map(str, la)), " ".join(map(str, pacts))))
     p = subprocess.run([ctx.modelrun, "genauto" if auto else "gen", path], capture_output=True, text=True, timeout=600)
     lines = p.stdout.split("\n")
+    if lines and lines[0].startswith("EXIT "):
+        # GenAuto.gocc_exit (C04_every_grammar_exit_status): predicted exit status without / with -a
+        r.model_exit = tuple(int(x) for x in lines[0].split()[1:3])
+        lines = lines[1:]
     kind = lines[0].strip() if lines else "NO-OUTPUT"
     nconf = d.get("numConflicts", 0)
     panicked = bool(d.get("panic"))
